@@ -1,7 +1,7 @@
 (* RegistryProofs.v — theorems about the Registry model (property C17). *)
 From Coq Require Import NArith List Bool Lia Permutation.
 From KV Require Import Registry.
-From KV.gen Require Import TxFacts.
+From KV.gen Require Import RegFacts.
 Import ListNotations.
 Open Scope N_scope.
 
@@ -1983,21 +1983,21 @@ Proof. vm_compute. reflexivity. Qed.
 Example shutdown_twice :
   let cfg := mkConfig 300 1300 900 10000 false true in
   snd (run cfg init [EShutdown; EShutdown]) =
-  [OMaint ROk; if TxFacts.registry_shutdown_close_guarded then OMaint ROk else OMaint RPanic].
+  [OMaint ROk; if RegFacts.registry_shutdown_close_guarded then OMaint ROk else OMaint RPanic].
 Proof. vm_compute. reflexivity. Qed.
 
 (* ---------- the shipped limits ---------- *)
 
 (* a Begin gives up waiting before a transaction could be called idle: the transaction handed to
    a caller that waited is never older than the idle limit *)
-Lemma shipped_wait_below_idle : TxFacts.registry_begin_timeout_ms < TxFacts.registry_default_idle_ms.
+Lemma shipped_wait_below_idle : RegFacts.registry_begin_timeout_ms < RegFacts.registry_default_idle_ms.
 Proof. vm_compute. reflexivity. Qed.
 
 (* with the limits of the binary: one run of the periodic cleanup after the idle limit frees the
    lock from any reachable state *)
 Theorem shipped_cleanup_frees : forall svc peer s, reachable (shipped_config svc peer) s ->
   let cfg := shipped_config svc peer in
-  let s2 := fst (run cfg s [ETick (TxFacts.registry_default_idle_ms + 1); EStale]) in
+  let s2 := fst (run cfg s [ETick (RegFacts.registry_default_idle_ms + 1); EStale]) in
   reg s2 = [] /\ lock_ids (lk s2) = [] /\ pends s2 = [] /\
   forall c ro d, In (OBegin c ROk) (snd (step cfg s2 (EBegin c ro d))).
 Proof.
